@@ -77,6 +77,7 @@ struct EchoSrv : public asl::WebSocketServer
 	std::vector<M>* msgs = nullptr;
 	std::vector<std::string> got;
 	volatile int served = 0, done = 0;
+	volatile bool sawEnd = false;
 	void serve(asl::WebSocket& ws)
 	{
 		__sync_fetch_and_add(&served, 1);
@@ -98,6 +99,7 @@ struct EchoSrv : public asl::WebSocketServer
 			else
 				got.push_back(s);
 		}
+		sawEnd = end;
 		if (end)
 		{
 			for (auto& m : *msgs)
@@ -123,6 +125,7 @@ void genAsl(Prng& r, Plan& p, int tier)
 	for (int i = 0; i < n; i++)
 		p.ops.push_back(op("msg", {(int64_t)r.below(2), (int64_t)r.below(2), wsLen(r, tier), (int64_t)(r.next() >> 20)}));
 	applyNetKnobs(r, p);
+	p.p["abrupt"] = r.below(5) == 0; // the client closes right behind its last message instead of waiting for the server's
 }
 
 void compareSeq(const char* dirName, const std::vector<M>& msgs, int dir, const std::vector<std::string>& got)
@@ -167,6 +170,7 @@ void runAsl(const Plan& p)
 	srv->start(true);
 	std::vector<std::string> clientGot;
 	bool connected = false, sawEnd = false;
+	const bool abrupt = p.get("abrupt") != 0;
 	{
 		asl::WebSocket ws;
 		connected = ws.connect("ws://127.0.0.1/chat", PORT);
@@ -181,7 +185,7 @@ void runAsl(const Plan& p)
 						ws.send(asl::ByteArray((const asl::byte*)m.data.data(), (int)m.data.size()));
 				}
 			ws.send(asl::String("\x01" "END"));
-			for (;;)
+			for (; !abrupt;)
 			{
 				if (!ws.wait(60) || ws.closed())
 					break;
@@ -204,6 +208,7 @@ void runAsl(const Plan& p)
 	srv->stop(true);
 	std::vector<std::string> serverGot = srv->got;
 	int served = srv->served;
+	bool serverSawEnd = srv->sawEnd;
 	delete srv;
 	sim::sleepFor(3.0);
 	sim::NoSched ns;
@@ -214,7 +219,15 @@ void runAsl(const Plan& p)
 	}
 	if (served != 1)
 		sim::fail("handshake", "serve_count", "server serve(WebSocket&) ran %d times for one connection", served);
-	compareSeq("client_to_server", msgs, 0, serverGot);
+	compareSeq(abrupt ? "client_to_server;close_behind_last_message" : "client_to_server", msgs, 0, serverGot);
+	if (abrupt)
+	{
+		// everything was sent before the close: TCP delivers it ahead of the end of stream
+		if (!serverSawEnd)
+			sim::fail("message_mismatch", "client_to_server;close_behind_last_message;lost_end", "the client closed right behind its last message; the server never received that message");
+		sim::setNontrivial();
+		return;
+	}
 	if (!sawEnd)
 		sim::fail("message_mismatch", "server_to_client;lost_end", "the client never received the end marker (connection ended early)");
 	compareSeq("server_to_client", msgs, 1, clientGot);
@@ -241,6 +254,7 @@ void genFramer(Prng& r, Plan& p, int tier)
 		p.ops.push_back(op("frag", {(int64_t)(1 + r.below(4)), (int64_t)r.below(6), (int64_t)r.below(3), (int64_t)(r.below(4) != 0), (int64_t)(r.next() >> 32)}));
 	}
 	applyNetKnobs(r, p);
+	p.p["abrupt"] = r.below(5) == 0; // the framer closes the connection right behind its last frame
 }
 
 uint32_t keyOf(int kind, uint64_t seed)
@@ -494,6 +508,15 @@ void runFramer(const Plan& p)
 		}
 	}
 	bool aslIsClient = p.get("asl_role") != 0;
+	const bool abrupt = p.get("abrupt") != 0;
+	if (abrupt)
+	{
+		// A framer that closes right behind its last frame must not have asked for anything: the pong that answers a
+		// ping would be sent into a closed connection, and TCP then resets it and discards what the asl side has not
+		// read yet (the kernel's doing, and the stub's; not a loss the library could prevent)
+		for (auto& f : frags)
+			f.ping = 0;
+	}
 	std::vector<std::string> framerGot;
 	bool framerSawEnd = false;
 	std::string framingProblem, handshakeProblem;
@@ -535,7 +558,8 @@ void runFramer(const Plan& p)
 			ef.seed = 3;
 			stream += framesFor(endm, ef, true);
 			sim::net::rawSend(fd, stream.data(), stream.size());
-			deframe(fd, false, framerGot, framerSawEnd, framingProblem);
+			if (!abrupt)
+				deframe(fd, false, framerGot, framerSawEnd, framingProblem);
 		}
 		sim::net::rawClose(fd);
 		srv->stop(true);
@@ -585,9 +609,9 @@ void runFramer(const Plan& p)
 				ef.seed = 4;
 				stream += framesFor(endm, ef, false);
 				sim::net::rawSend(fd, stream.data(), stream.size());
-				// wait for the client's close
+				// wait for the client's close (or, abrupt, close right behind the last frame)
 				char tmp[256];
-				while (sim::net::rawRecv(fd, tmp, sizeof tmp, 60.0) > 0)
+				while (!abrupt && sim::net::rawRecv(fd, tmp, sizeof tmp, 60.0) > 0)
 				{
 				}
 			}
@@ -610,15 +634,19 @@ void runFramer(const Plan& p)
 		sim::fail("framing", (std::string(who) + ";" + framingProblem).c_str(), "frames emitted by the %s: %s", who, framingProblem.c_str());
 	if (aslSide.negative)
 		sim::fail("negative_length", who, "receive() returned a message of negative length");
-	// asl -> framer direction
-	compareSeq(aslIsClient ? "asl_client_to_framer" : "asl_server_to_framer", msgs, aslIsClient ? 0 : 1, framerGot);
-	if (!framerSawEnd && framingProblem.empty())
+	// asl -> framer direction (an asl server answers only after the framer's end marker: nobody listens any more when the framer has gone)
+	const bool framerListened = !(abrupt && !aslIsClient);
+	if (framerListened)
+		compareSeq(aslIsClient ? "asl_client_to_framer" : "asl_server_to_framer", msgs, aslIsClient ? 0 : 1, framerGot);
+	if (framerListened && !framerSawEnd && framingProblem.empty())
 		sim::fail("message_mismatch", aslIsClient ? "asl_client_to_framer;lost_end" : "asl_server_to_framer;lost_end", "the framer never saw the end marker from the %s", who);
 	// framer -> asl direction
 	{
 		std::string dn = aslIsClient ? "framer_to_asl_client" : "framer_to_asl_server";
 		if (fragmentedWithPing)
 			dn += ";ping_between_fragments";
+		if (abrupt)
+			dn += ";close_behind_last_frame";
 		compareSeq(dn.c_str(), msgs, aslIsClient ? 1 : 0, aslSide.got);
 		if (!aslSide.sawEnd)
 			sim::fail("message_mismatch", (dn + ";lost_end").c_str(), "the %s never received the end marker sent by the framer", who);
